@@ -190,6 +190,8 @@ T_SCALAR = [
     'EXP({a})', 'COSH({a})', 'DEGREES({a})', 'LN({a})', 'ROUND({a},0)',
     'ROUND({a}/{b},2)', 'EXP({a})+{b}', 'ROUNDUP({a},1)', 'TRUNC({a})',
     'FLOOR({a},1)', 'CEILING({a},1)', 'ISEVEN({a})', 'LOWER({a})',
+    '{a}&" [kg]"', 'IF({a}>3,"[heavy]","light")', '{a}&"!A1"',
+    'ROUND({a}-{a},2)', 'ROUND({a}/3,2)',
 ]
 T_RANGE = [
     'SUM({R})', 'AVERAGE({R})', 'MIN({R})', 'MAX({R})', 'COUNT({R})',
@@ -648,12 +650,16 @@ def world_model(world, cells=None, stale=False, build_code=True):
 # (floating-point error handling, decimal contexts, overflow paths)
 STRESSORS = ['=EXP(800)', '=1/0', '=SQRT(-1)', '=LN(0)', '=POWER(10,400)',
              '=10^400', '=FACT(200)', '=COSH(800)*0', '=EXP(710)-EXP(710)',
-             '=MOD(5,0)', '=LOG10(-1)', '=ASIN(2)', '=1E308*10', '=ROUND(1E308,2)']
+             '=MOD(5,0)', '=LOG10(-1)', '=ASIN(2)', '=1E308*10', '=ROUND(1E308,2)',
+             '=LEN(FACT(2000))', '=ROUND(1E308*10-1E308*10,2)',
+             '=VDB(2400,300,10,5,6,2,TRUE)']
 OBSERVERS = ['=COSH(800)', '=DEGREES(1E308)', '=ROUND(2.5,0)', '=ROUND(0.125,2)',
              '=ROUND(-4.5,0)', '=1E308*10', '=EXP(709)', '=10/3', '=SQRT(2)',
              '=ROUNDUP(2.341,2)', '=ROUNDDOWN(-2.349,2)', '=2^0.5', '=EXP(1)',
              '=1/3+1/3', '=SINH(750)', '=1E-320/10', '=FLOOR(2.5,1)',
-             '=TRUNC(1E15+0.5)', '=ROUND(1.005,2)']
+             '=TRUNC(1E15+0.5)', '=ROUND(1.005,2)',
+             '=VDB(2400,300,10,5,6,2,FALSE)', '=VDB(2400,300,10,5,6,2)',
+             '=ROUND(1E308*10-1E308*10,1)', '=M1+0', '=LEN(M1)']
 
 
 def add_env_cells(rng, world):
@@ -662,6 +668,12 @@ def add_env_cells(rng, world):
     change if that left anything behind."""
     if rng.random() < 0.5:
         return
+    # a number written with more digits than the interpreter converts by
+    # default (observers '=M1+0', '=LEN(M1)')
+    world['cells']['Env!M1'] = '9' * 4400
+    world['deps']['Env!M1'] = []
+    world['level']['Env!M1'] = 0
+    world['order'].append('Env!M1')
     k = 1
     for pool, n in ((STRESSORS, rng.randint(1, 2)),
                     (OBSERVERS, rng.randint(2, 3))):
